@@ -37,6 +37,12 @@ type SchedScenario struct {
 	Param       int         `json:"policy_param"`
 	Tasks       [][]SchedOp `json:"tasks"`
 	Schedule    []Seg       `json:"schedule,omitempty"` // explicit schedule (replay / shrinking); overrides the policy while it lasts
+	// Cold: the scenario is executed in a fresh process and nothing of the
+	// library runs before the tasks start except the compilation of the shared
+	// programs; the sequential baselines are taken AFTER the tasks finished.
+	// Process-global state (caches, lazily initialised tables) is then first
+	// touched under the scheduler. Uses the default budget.
+	Cold bool `json:"cold_process,omitempty"`
 }
 
 func (sc *SchedScenario) clone() *SchedScenario {
@@ -71,7 +77,7 @@ func (c08Engine) Assumptions() []string {
 	}
 }
 func (c08Engine) Required(tier string) []string {
-	req := []string{"hook_calls", "context_switches", "switches_inside_op", "ops_run", "ops_vmrun", "ops_compile", "policy/" + PolUniform, "policy/" + PolBurst, "policy/" + PolPCT, "policy/" + PolSeq, "snapshots_during_run", "tight_budget_scenarios", "yields_in_env_function", "yields_in_visitor"}
+	req := []string{"hook_calls", "context_switches", "switches_inside_op", "ops_run", "ops_vmrun", "ops_compile", "policy/" + PolUniform, "policy/" + PolBurst, "policy/" + PolPCT, "policy/" + PolSeq, "snapshots_during_run", "tight_budget_scenarios", "cold_process_scenarios", "yields_in_env_function", "yields_in_visitor"}
 	if raceEnabled {
 		req = append(req, "race_detector_active")
 	}
@@ -86,6 +92,10 @@ func (c08Engine) Decode(raw []byte) (interface{}, error) {
 // FreshProcess: race reports are de-duplicated per process, so scenarios whose
 // violation is a race report must be re-executed in a fresh process.
 func (c08Engine) FreshProcess(class string) bool { return raceEnabled }
+
+// ColdStart: scenarios that must run in a process where the library has not
+// been used yet.
+func (c08Engine) ColdStart(sci interface{}) bool { return sci.(*SchedScenario).Cold }
 
 // genConstHeavy builds a program whose compiled form holds constants of many kinds.
 func genConstHeavy(r *RNG) *N {
@@ -167,6 +177,10 @@ func (c08Engine) Gen(seed uint64, idx int, tier string) interface{} {
 		sc.BudgetSlack = r.Intn(3)
 	}
 	sc.ConstExpr = r.Chance(1, 3)
+	if r.Chance(1, 4) {
+		sc.Cold = true
+		sc.BudgetSlack = -1
+	}
 	switch x := r.Intn(20); {
 	case x == 0:
 		sc.Policy = PolSeq
@@ -345,29 +359,31 @@ func runSched(sc *SchedScenario, ctx *RunCtx) (*Finding, []Seg) {
 	}
 	vm.MemoryBudget = defaultBudget
 	need := 1
-	for pi := range progs {
-		ref := baseline("run", pi)
-		lo, hi := 1, 4096 // smallest budget giving the same outcome as the default budget
-		vm.MemoryBudget = hi
-		if baseline("run", pi).key != ref.key {
-			hi = defaultBudget
-		}
-		for lo < hi {
-			mid := (lo + hi) / 2
-			vm.MemoryBudget = mid
-			if baseline("run", pi).key == ref.key {
-				hi = mid
-			} else {
-				lo = mid + 1
+	if !sc.Cold {
+		for pi := range progs {
+			ref := baseline("run", pi)
+			lo, hi := 1, 4096 // smallest budget giving the same outcome as the default budget
+			vm.MemoryBudget = hi
+			if baseline("run", pi).key != ref.key {
+				hi = defaultBudget
 			}
+			for lo < hi {
+				mid := (lo + hi) / 2
+				vm.MemoryBudget = mid
+				if baseline("run", pi).key == ref.key {
+					hi = mid
+				} else {
+					lo = mid + 1
+				}
+			}
+			if lo > need {
+				need = lo
+			}
+			vm.MemoryBudget = defaultBudget
 		}
-		if lo > need {
-			need = lo
-		}
-		vm.MemoryBudget = defaultBudget
 	}
 	budget := defaultBudget
-	if sc.BudgetSlack >= 0 {
+	if sc.BudgetSlack >= 0 && !sc.Cold {
 		budget = need + sc.BudgetSlack
 		ctx.Count("tight_budget_scenarios", 1)
 	}
@@ -375,14 +391,22 @@ func runSched(sc *SchedScenario, ctx *RunCtx) (*Finding, []Seg) {
 
 	bases := map[string]base{}
 	totalSteps := 0
-	for _, ops := range sc.Tasks {
-		for _, op := range ops {
-			k := fmt.Sprintf("%s/%d", op.Kind, op.Prog)
-			if _, ok := bases[k]; !ok {
-				bases[k] = baseline(op.Kind, op.Prog)
+	takeBaselines := func() {
+		for _, ops := range sc.Tasks {
+			for _, op := range ops {
+				k := fmt.Sprintf("%s/%d", op.Kind, op.Prog)
+				if _, ok := bases[k]; !ok {
+					bases[k] = baseline(op.Kind, op.Prog)
+				}
+				totalSteps += bases[k].steps + 8
 			}
-			totalSteps += bases[k].steps + 8
 		}
+	}
+	if sc.Cold {
+		ctx.Count("cold_process_scenarios", 1)
+		totalSteps = 3000 // nothing has run yet: a fixed generous estimate
+	} else {
+		takeBaselines()
 	}
 	s.stepBound = 10000 + 1000*totalSteps
 	if s.policy == PolPCT && len(sc.Schedule) == 0 {
@@ -456,6 +480,9 @@ func runSched(sc *SchedScenario, ctx *RunCtx) (*Finding, []Seg) {
 	s.start()
 	wg.Wait()
 	ctx.Eval()
+	if sc.Cold {
+		takeBaselines() // after the fact: S.cur is nil again, yields are no-ops
+	}
 
 	rec := append([]Seg{}, s.rec...)
 	ctx.Count("policy/"+sc.Policy, 1)
